@@ -445,6 +445,35 @@ def exact_ground_bad(spec, terms):
     return None
 
 
+def bind_ground_bad(owner, values):
+    """evaluate_estimation_circuits on REAL circuits: owner[i] = which circuit object task i carries (objects may be shared),
+    values[i] = the numbers map i binds (theta, phi). Task i must come back with ITS circuit bound with ITS map."""
+    import sympy
+    from orquestra.quantum.api.estimation import EstimationTask
+    from orquestra.quantum.circuits import Circuit, RX, RY, CNOT
+    from orquestra.quantum.estimation import evaluate_estimation_circuits
+    from orquestra.quantum.operators import PauliTerm
+
+    th, ph = sympy.Symbol("theta"), sympy.Symbol("phi")
+    circs = [Circuit([RX(th)(0), RY(ph + j)(1), CNOT(0, 1)]) for j in range(max(owner) + 1)]
+    ops = [PauliTerm({0: "Z"}, float(i + 1)) for i in range(len(owner))]
+    tasks = [EstimationTask(ops[i], circs[owner[i]], 7 + i) for i in range(len(owner))]
+    maps = [{th: v[0], ph: v[1]} for v in values]
+    out = evaluate_estimation_circuits(tasks, maps)
+    if len(out) != len(tasks):
+        return f"{len(out)} tasks returned for {len(tasks)}"
+    for i, o in enumerate(out):
+        want = Circuit([RX(th)(0), RY(ph + owner[i])(1), CNOT(0, 1)]).bind({th: values[i][0], ph: values[i][1]})
+        if o.circuit != want or [op.params for op in o.circuit.operations] != [op.params for op in want.operations]:
+            return f"task {i} (circuit object #{owner[i]}, map {values[i]}) came back with parameters {[op.params for op in o.circuit.operations]}, want {[op.params for op in want.operations]}"
+        if o.operator is not ops[i] and o.operator != ops[i] or o.number_of_shots != 7 + i:
+            return f"task {i}: operator or shot number changed"
+    for i, t in enumerate(tasks):
+        if t.circuit is not circs[owner[i]] or list(t.circuit.free_symbols) != [th, ph]:
+            return f"input task {i} was modified"
+    return None
+
+
 def work(item):
     kind, p = item
     res = Result(f"{kind}|{p['label']}")
@@ -469,7 +498,9 @@ def work(item):
         res.d["ground_instances"] += 1
         res.d["instances"] -= 1
         res.ob(1)
-        if kind == "shots":
+        if kind == "bindmaps":
+            bad = bind_ground_bad(p["owner"], p["values"])
+        elif kind == "shots":
             bad = shots_ground_bad(p["bits"], [tuple(t) for t in p["terms"]], p["nmax"])
         else:
             bad = basis_ground_bad(p["bits"], [tuple(t) for t in p["terms"]], p["shots"]) if kind == "basis" else exact_ground_bad(p["spec"], [tuple(t) for t in p["terms"]])
@@ -554,6 +585,17 @@ def run(ctx):
         ([["U3(0.3,0.7,1.1)", [1]], ["XX(0.5)", [0, 1]]], [[{"0": "Z", "1": "Z"}, 1.0], [{"1": "X"}, 2.0]]),
     ]:
         items.append(("exact", {"spec": spec, "terms": terms, "label": f"exact {spec}"}))
+    # ground: real circuits, shared circuit objects, maps whose values are "equal-looking" to a hash or a comparison
+    # (hash(-1) == hash(-2), hash(2**61 - 1) == hash(0), 1 == 1.0 == True, 0 == 0.0 == -0.0)
+    for owner, values in [
+        ([0, 0, 0, 0, 0], [[-2, 0.5], [-1, 0.5], [0, 0.5], [1, 0.5], [2, 0.5]]),
+        ([0, 0, 1, 1], [[-1.0, 0.25], [-2.0, 0.25], [0.25, -1], [0.25, -2]]),
+        ([0, 0, 0], [[0, 1], [2**61 - 1, 1], [0.0, 1.0]]),
+        ([0, 1, 0, 1], [[0.5, 0.75], [0.5, 0.75], [0.75, 0.5], [0.75, 0.5]]),
+        ([0, 0], [[1, 2], [2, 1]]),
+        ([1, 0, 1], [[0.1, 0.2], [0.1, 0.2], [0.1, 0.2]]),
+    ]:
+        items.append(("bindmaps", {"owner": owner, "values": values, "label": f"bind tasks sharing circuit objects {owner} with maps {values}"}))
     if only:
         items = [it for it in items if only in it[1]["label"] or only == it[0]]
     for it, out in pmap(work, items):
@@ -590,7 +632,11 @@ def replay(data):
             return exact_sym_replay({k: v for k, v in inp.items() if k not in ("clause", "values")}, inp.get("values") or {})
         if "kinds" in inp:
             return const_replay({k: v for k, v in inp.items() if k not in ("clause", "values")}, inp["clause"], inp.get("values") or {})
-        if inp["clause"] == "basis":
+        if inp["clause"] == "bindmaps":
+            bad = bind_ground_bad(inp["owner"], inp["values"])
+        elif inp["clause"] == "shots":
+            bad = shots_ground_bad(inp["bits"], [tuple(t) for t in inp["terms"]], inp["nmax"])
+        elif inp["clause"] == "basis":
             bad = basis_ground_bad(inp["bits"], [tuple(t) for t in inp["terms"]], inp["shots"])
         else:
             bad = exact_ground_bad(inp["spec"], [tuple(t) for t in inp["terms"]])
